@@ -2,6 +2,7 @@ package layouta
 
 import (
 	"fmt"
+	"regexp"
 	"sort"
 	"strings"
 	"time"
@@ -175,6 +176,31 @@ func scriptTrigger(err error, g *d2graph.Graph) string {
 }
 
 // c17Oracle: input "engine\nsource".
+var infObjRe = regexp.MustCompile(`object "((?:[^"\\]|\\.)*)" has invalid position`)
+
+// infObjectKind says what kind of object validateObjectPositions complained about (the mechanisms that produce an
+// infinite coordinate differ by the layout that placed the object).
+func infObjectKind(err error, g *d2graph.Graph) string {
+	m := infObjRe.FindStringSubmatch(err.Error())
+	if m == nil {
+		return "object-unknown"
+	}
+	for _, o := range g.Objects {
+		if o.AbsID() == m[1] || strings.HasSuffix(o.AbsID(), "."+m[1]) { // nested diagrams are laid out as extracted graphs: ids are relative
+			switch {
+			case o.OuterSequenceDiagram() != nil:
+				return "object-inside-sequence-diagram"
+			case o.OuterNearContainer() != nil || o.IsConstantNear():
+				return "constant-near-shape"
+			case o.Parent != nil && o.Parent.IsGridDiagram():
+				return "grid-cell"
+			}
+			return "object-in-core-layout"
+		}
+	}
+	return "object-unknown"
+}
+
 func c17Oracle(in string) eng.Res {
 	engine, src := splitIn(in)
 	g0, _, err := u.Compile(src)
@@ -195,6 +221,9 @@ func c17Oracle(in string) eng.Res {
 			cls = "generated script broken" + trig
 		} else {
 			cls += trig
+		}
+		if strings.Contains(cls, "infinity value") {
+			cls += ":" + infObjectKind(err, g0)
 		}
 		return eng.Bad("layout-error:"+engine+":"+cls, err.Error())
 	}
@@ -267,7 +296,7 @@ func init() {
 		ID: "C17", Level: "exploration", HangBound: 900 * time.Second,
 		QuickBudget: 240 * time.Second, ThoroughBudget: 24 * time.Minute,
 		Pre: u.WriteCorpusCache,
-		Rule: "every program of <=k statements over the layout fragment FL (leaves, 24 shapes, containers depth<=3, 16 connection forms, 4 directions, 8 constant nears, grids, sequence diagrams, label/icon positions, 3d/multiple/stroke/size styles, special names, boards) laid out through d2lib.Compile with dagre and with ELK, plus a name family (every object name of <=2 symbols over a 39-symbol alphabet in the forms N, N -> b, c: {N}) and every compilable .d2 file of the repository; non-trivial = the diagram compiles, the engine supports its features and it has at least one object; outcome = multiset of laid-out boxes and route lengths",
+		Rule: "every program of <=k statements over the layout fragment FL (leaves, 24 shapes, containers depth<=3, 16 connection forms, 4 directions, 8 constant nears, grids, sequence diagrams, label/icon positions, 3d/multiple/stroke/size styles, special names, boards) laid out through d2lib.Compile with dagre and with ELK, plus boards made of constant-near shapes only or of one leaf and nears (every subset of <=2, thorough <=3, of the 8 constants x 2 near-shape kinds), plus a name family (every object name of <=2 symbols over a 39-symbol alphabet in the forms N, N -> b, c: {N}) and every compilable .d2 file of the repository; non-trivial = the diagram compiles, the engine supports its features and it has at least one object; outcome = multiset of laid-out boxes and route lengths",
 		Assumptions: []string{
 			"diagrams that use a feature the engine's plugin declares unsupported (d2plugin.FeatureSupportCheck: near-object, container dimensions/descendant connections under dagre, top/left) are outside the space: the CLI rejects them",
 			"names the d2ast.RawString key encoder does not reproduce exactly are skipped (quoting is C05/C06)",
@@ -282,6 +311,20 @@ func init() {
 			chunked(w, "FLfull<=1:dagre+elk", 2, func(emit func(string, string)) {
 				for k := 0; k <= 1; k++ {
 					forPrograms("", full, k, func(src string) {
+						emit("layout", mkIn("dagre", src))
+						emit("layout", mkIn("elk", src))
+					})
+				}
+			})
+			// boards that consist of constant-near shapes only (or of one leaf plus nears): d2near computes the bounding box
+			// of the main content, which is empty here
+			chunked(w, "near-only boards: subsets<=2(3) of the 8 constants x 2 kinds:dagre+elk", 2, func(emit func(string, string)) {
+				maxK := 2
+				if w.Thorough() {
+					maxK = 3
+				}
+				for k := 1; k <= maxK; k++ {
+					c24ProgramsM([]string{"", "a"}, k, 2, func(src string) {
 						emit("layout", mkIn("dagre", src))
 						emit("layout", mkIn("elk", src))
 					})
